@@ -88,6 +88,10 @@ Verdict(o) ==
        c07bytes |-> PF(o.nmut > 0, o.mutbad = <<>>),
        c14 |-> PF(ok /\ o.gob # "na" /\ (nf \/ o.case.fam = "payload"), o.gob = "eq"),
        c15 |-> PF(ok /\ o.nptr > 0, bad15 = {}),
+       \* C19: validin / validrt / validexp are the verdicts of the JSON-schema validator (instrument)
+       \* on the source, on its re-encoding and on its expansion: "t" | "f" | "n" (not produced)
+       c19rt  |-> PF(o.validin = "t", ok /\ o.validrt = "t"),
+       c19exp |-> PF(o.validin = "t" /\ ok, o.validexp = "t"),
        bad15 |-> SetToSeq({o.badptr[i].ptr : i \in bad15}),
        kf |-> SetToSeq(KF(o)) ]
 
